@@ -14,8 +14,11 @@ Out of domain (reported with in_domain=False, never silently dropped): a text wi
 model's upper/lower/isspace tables are Python's (`lasdoc.in_sigma`).  Not compared: the model answers "unmodelled" (provisional version
 undecided: comma / exponent / > 15 digits in VERS).
 
-Stand-alone:  cd /verif && /venv/bin/python -m harness.readobj_stream [n] [seed]      (env RO_DRIVER = command of a private driver;
-default: `lake env lean --run /var/tmp/rodrv/ro_driver.lean` in /verif/lean)
+`run_full_stream(run, n)`: op "ro.full" (typed header + curve data as float texts + index_initial) vs the full `lasio.read(text)` on generated
+numeric documents (datadoc.plain_doc, documents with NULL cells, the typed-header documents above) and the corpus (files up to 400 lines).
+
+Stand-alone:  cd /verif && [RO_FULL=1] /venv/bin/python -m harness.readobj_stream [n] [seed]      (env RO_DRIVER = command of a private
+driver; default: the compiled lasio_driver)
 """
 import collections
 import json
@@ -318,6 +321,152 @@ def run_stream(run, n, corpus=True):
     return counts
 
 
+# ------------------------------------------------------------------------------------------------ the FULL stream (op "ro.full")
+FULL_MAX_LINES = 400
+
+
+def real_full(text, ignore, case, engine):
+    """typed sections (header-only read) + curve data / index_initial of the full read + the steering values the real code computed"""
+    from . import datadoc as dd
+    hdr = real_typed(text, ignore, case)
+    r = dd.real_read(text, ignore_header_errors=ignore, mnemonic_case=case, engine=engine)
+    out = {"hdr": hdr, "res": r["res"][:2], "steer": r["steer"], "index_initial": None}
+    las = r["las"]
+    if las is not None:
+        ii = getattr(las, "index_initial", None)
+        if ii is None:
+            out["index_initial"] = None
+        elif getattr(ii, "dtype", None) is not None and ii.dtype.kind == "f":
+            out["index_initial"] = [dd.fhex(x) for x in ii.tolist()]
+        else:
+            out["index_initial"] = ["text", repr(ii)]
+    return out
+
+
+def full_diff(m, real):
+    """model answer of ro.full vs real_full(); None when equal"""
+    hdr = real["hdr"]
+    if isinstance(m, dict) and "err" in m:
+        return None if m == hdr else "outcome"
+    if isinstance(m, dict) and "dataerr" in m:
+        return None if (real["res"][0] == "err" and real["res"][1].startswith(m["dataerr"])) else "data-outcome"
+    if "err" in hdr:
+        return "outcome"
+    if real["res"][0] != "ok":
+        return "data-outcome"
+    o = m["ok"]
+    d = diff(model_typed({"ok": {"sections": o["sections"]}}), hdr)
+    if d:
+        return "header:" + d
+    curves = real["res"][1]
+    if any(k != "f" for _, k, _ in curves):
+        return "text-column-not-refused"
+    if [c for _, _, c in curves] != o["curves"]:
+        return "curves"
+    if real["index_initial"] != o["index_initial"]:
+        return "index_initial"
+    return None
+
+
+def _flush_full(run, pend, counts):
+    from . import datadoc as dd
+    if not pend or run.model is None:
+        return
+    reqs, keep = [], []
+    for (stream, text, ig, c, eng, indom) in pend:
+        real = real_full(text, ig, c, eng)
+        steer = real["steer"]
+        if steer is None or not dd.modelled(steer, {}):
+            counts["full:not-modelled(no/several data sections, DLM, NULL)"] += 1
+            continue
+        reqs.append({"op": "ro.full", "text": text, "ignore": ig, "case": c, "engine": eng, "null_policy": "strict",
+                     "null": dd.null_text(steer["null"]), "floats": dd.float_table(text)})
+        keep.append((stream, text, ig, c, eng, indom, real))
+    if not reqs:
+        return
+    ans = run.model.ask(reqs)
+    for (stream, text, ig, c, eng, indom, real), m in zip(keep, ans):
+        run.traces += 1
+        case = {"text": text if len(text) < 6000 else text[:6000] + "…", "ignore": ig, "case": c, "engine": eng}
+        if isinstance(m, dict) and "error" in m:
+            run.disagree(stream + ":driver-error", case, m, None, in_domain=indom)
+            continue
+        if m == "unmodelled":
+            # legitimate only for a text column / an extra curve / an undecided version
+            curves = real["res"][1] if real["res"][0] == "ok" else []
+            declared = len(real["steer"]["declared"])
+            why = ("text-column" if any(k != "f" for _, k, _ in curves) else "extra-curve" if len(curves) > declared else
+                   "version" if real["res"][0] == "ok" else "real-error")
+            if why == "real-error":
+                # the header model itself may be undecided (VERS with a comma / exponent / > 15 digits): then nothing can be compared
+                if run.model.ask1({"op": "ro.read", "text": text, "ignore": ig, "case": c}) == "unmodelled":
+                    why = "version"
+                elif indom and "err" not in real["hdr"]:
+                    run.disagree(stream + ":unmodelled-vs-error", case, m, real["res"], in_domain=indom)
+            counts["full:unmodelled:" + why] += 1
+            continue
+        d = full_diff(m, real)
+        counts["full:compared"] += 1
+        if "ok" in m:
+            counts["full:ok"] += 1
+            counts["full:cells"] += sum(len(c) for c in m["ok"]["curves"])
+            counts["full:nan-cells"] += sum(c.count("nan") for c in m["ok"]["curves"])
+        if d:
+            counts["full:diff" if indom else "full:diff-out-of-domain"] += 1
+            run.disagree(stream + ":" + d, case, m, {k: real[k] for k in ("hdr", "res", "index_initial")}, in_domain=indom)
+        else:
+            run.dist["ro.full:agree"] += 1
+
+
+def run_full_stream(run, n, corpus=True):
+    """`ro.full` (typed header + curve data + index_initial) vs `lasio.read(text)`; returns a Counter"""
+    from . import datadoc as dd
+    rng = run.rng
+    counts = collections.Counter()
+    pend = []
+
+    def add(stream, text, ig, case, eng):
+        pend.append((stream, text, ig, case, eng, ld.in_sigma(text)))
+        if len(pend) >= 64:
+            _flush_full(run, pend, counts)
+            del pend[:]
+    for k in range(n):
+        if k % 3 == 0:
+            text, tags = gen_text(rng)
+            kind = "typed-doc"
+        elif k % 3 == 1:
+            c = rng.randint(1, 6)
+            text = dd.plain_doc(rng, d=(c if rng.random() < 0.75 else rng.randint(0, 8)), c=c)["text"]
+            kind = "plain-doc"
+        else:
+            # numeric file with NULL cells (several spellings of the header NULL value among the cells, also in the index column)
+            c, r = rng.randint(1, 4), rng.randint(1, 5)
+            cells = [[rng.choice(["-999.25", "-999.250", "-9.9925e2", "1.5", "2", "-9999", "0.25", "1e3", "5", "0"]) for _ in range(c)]
+                     for _ in range(r)]
+            text = dd.plain_doc(rng, d=(c if rng.random() < 0.8 else c + rng.randint(1, 2)), c=c, r=r, cells=cells)["text"]
+            kind = "null-doc"
+        ig = rng.random() < 0.2
+        case = rng.choice(["upper", "upper", "preserve", "lower"])
+        eng = rng.choice(["numpy", "normal"])
+        run.case({"stream": "ro.full", "text": text, "ignore": ig, "case": case, "engine": eng}, nontrivial=True,
+                 tags=["ro.full:generated", "ro.full:" + kind])
+        add("ro.full", text, ig, case, eng)
+    _flush_full(run, pend, counts)
+    del pend[:]
+    if corpus:
+        for rel, text in corpus_texts():
+            if len(text.splitlines()) < 2:
+                continue
+            if text.count("\n") > FULL_MAX_LINES:
+                counts["full:corpus-too-long(skipped)"] += 1
+                continue
+            run.case({"stream": "ro.full:corpus", "file": rel}, nontrivial=True, tags=["ro.full:corpus"])
+            counts["full:corpus"] += 1
+            add("ro.full:corpus:" + rel, text, False, "preserve", "numpy")
+        _flush_full(run, pend, counts)
+    return counts
+
+
 # ------------------------------------------------------------------------------------------------ stand-alone runner
 class _PrivateModel(fw.Model):
     def __init__(self, cmd, cwd):
@@ -336,11 +485,14 @@ def main(argv):
     warnings.simplefilter("ignore")
     n = int(argv[1]) if len(argv) > 1 else 2000
     seed = int(argv[2]) if len(argv) > 2 else 0
-    cmd = shlex.split(os.environ.get("RO_DRIVER", "lake env lean --run /var/tmp/rodrv/ro_driver.lean"))
+    cmd = shlex.split(os.environ.get("RO_DRIVER", fw.DRIVER))
     run = fw.Run(_Stub, "quick", seed)
     run.model = _PrivateModel(cmd, fw.LEAN)
     try:
-        counts = run_stream(run, n)
+        if os.environ.get("RO_FULL"):
+            counts = run_full_stream(run, n)
+        else:
+            counts = run_stream(run, n)
     finally:
         run.model.close()
     print("seed", seed, "documents", n)
